@@ -150,4 +150,18 @@ theorem call_lands_in_body (items : List Item) (s s' : St) (hinv : Inv s) (hrun 
   refine ⟨_, ?_, h2.2, h2.1⟩
   exact call_pushes cur m { ctxOf s' with callStack := stack } n _ (by simpa [ctxOf] using h1)
 
+/-- **CALL … RET comes back to the instruction after the CALL** and restores the return stack,
+    whatever the body did to the machine in between (`m'` arbitrary) -/
+theorem call_ret_roundtrip (items : List Item) (s s' : St) (hrun : runItems items s = .ok (⟨⟩, s'))
+    (j : Nat) (n : String) (a b : Nat) (hj : items[j]? = some (.procBegin n a b))
+    (cur curRet : Nat) (m m' : Machine) (stack : List Nat) :
+    ∃ idx, exec cur m { ctxOf s' with callStack := stack } (.call n)
+        = .ok (.JMP idx, m, { ctxOf s' with callStack := stack ++ [cur + 1] })
+      ∧ exec curRet m' { ctxOf s' with callStack := stack ++ [cur + 1] } .ret
+        = .ok (.JMP (cur + 1), m', { ctxOf s' with callStack := stack }) := by
+  obtain ⟨_, hfn⟩ := fn_index items s s' hrun
+  have h1 := hfn j n a b hj
+  refine ⟨_, call_pushes cur m { ctxOf s' with callStack := stack } n _ (by simpa [ctxOf] using h1), ?_⟩
+  exact ret_pops curRet m' (ctxOf s') stack (cur + 1)
+
 end Emu8086.Props.C08Flow
